@@ -53,7 +53,7 @@ def pregen(check):
 
 CFG = {
     "id": "C03",
-    "lean_modules": ["GeomV.C03.Proofs", "GeomV.C03.ProofsScale", "GeomV.C03.ProofsTranslate", "GeomV.C03.ProofsMScale", "GeomV.C03.ProofsTouch", "GeomV.C03.ProofsOrder", "GeomV.C03.ProofsSpecScale", "GeomV.C03.ProofsOpArea", "GeomV.C03.ProofsBBox", "GeomV.C03.ProofsAffine", "GeomV.C03.ProofsJudge", "GeomV.C03.ProofsOp", "GeomV.C03.ProofsMTranslate", "GeomV.C03.ProofsClosed", "GeomV.C03.ProofsGC"],
+    "lean_modules": ["GeomV.C03.Proofs", "GeomV.C03.ProofsScale", "GeomV.C03.ProofsTranslate", "GeomV.C03.ProofsMScale", "GeomV.C03.ProofsTouch", "GeomV.C03.ProofsOrder", "GeomV.C03.ProofsSpecScale", "GeomV.C03.ProofsOpArea", "GeomV.C03.ProofsBBox", "GeomV.C03.ProofsAffine", "GeomV.C03.ProofsJudge", "GeomV.C03.ProofsOp", "GeomV.C03.ProofsMTranslate", "GeomV.C03.ProofsClosed", "GeomV.C03.ProofsGC", "GeomV.C03.ProofsOrient"],
     "exe": "geomv_c03",
     "go_cmd": "c03",
     "stages": ["go:gen", "go:impl", "lean:judge"],
@@ -74,6 +74,7 @@ CFG = {
         "C03_centroid_valid_anyorder_now", "C03_mcentroid_anyorder_now",
         "closeIfOpen_ap", "C03_allClosed_of_spelling", "C03_allClosed_of_spelling_multi", "C03_mcentroid_now", "C03_opCentroid_now",
         "C03_opArea_leaves", "C03_opArea_collection", "C03_opArea_geom", "C03_opLength_leaves", "C03_opLength_geom",
+        "cr_trans", "cr_strict", "fan_chain", "orient_fan_ccw", "orient_fan_cw", "opOrientation1_start", "opOrientation1_mid", "C03_op_orientation_fan_partial",
         "pip_scale", "ringArea_scale", "C03_area_scale", "multiPolygonCentroidCore_scale", "C03_mcentroid_guard", "C03_mcentroid_guarded_all",
         "C03_area_touch", "C03_marea_touch", "C03_mcentroid_touch", "C03_mcentroid_touch_guarded", "C03_centroid_valid_touch",
         "C03_area_order", "C03_area_anyorder", "C03_area_holefirst", "C03_mcentroid_anyorder", "C03_centroid_order", "C03_centroid_valid_anyorder",
